@@ -53,6 +53,10 @@ package dns
 //@   callsite "isPacketConn" transport: arg0 == co.Conn
 //@   exit stream: called("isPacketConn") && !callres("isPacketConn") && called("ReadMsg") && callres("ReadMsg", 1) == nil && callres("ReadMsg", 0).Id != m.Id ==> err != nil
 //@   exit policy: called("ReadMsg") ==> called("isPacketConn")
+// the deadlines are those of this exchange, fixed before anything is sent: skipping replies with a foreign ID never
+// pushes the read deadline out ("until the matching one or the deadline arrives")
+//@   callsite "SetReadDeadline" fixed: !called("WriteMsg") && !called("ReadMsg")
+//@   callsite "SetWriteDeadline" fixedw: !called("WriteMsg") && !called("ReadMsg")
 //@   callsite "WriteMsg" query: arg0 == co && arg1 == m
 //@   callsite "ReadMsg" after: arg0 == co && called("WriteMsg") && callres("WriteMsg") == nil
 //@   exit werr: called("WriteMsg") && callres("WriteMsg") != nil ==> err != nil && r == nil
